@@ -63,14 +63,14 @@ def run(ctx):
         _replay(ctx, items, 'graph ' + gcfg)
         ctx.cov['exhaustive'] = True
         del g
-        # undo/redo-heavy words (deep interleavings across the command that created a group)
-        ucfg = 'GEN_Commands_undo.cfg'
-        res, g = tlc.dump_graph(wd, 'MC_Commands.tla', ucfg, timeout=3000)
-        ctx.add_tlc('E1 generation ' + ucfg, res, ucfg)
-        items = _items([[g.state(n) for n in p] for p in g.behaviours()], 3)
-        ctx.check_ops(ucfg, items, ['Do', 'Undo', 'Redo'])
-        _replay(ctx, items, 'graph ' + ucfg)
-        del g
+        # undo/redo-heavy words (deep interleavings across the command that created a group; undo across a dataset removal)
+        for ucfg in ('GEN_Commands_undo.cfg', 'GEN_Commands_undo2.cfg'):
+            res, g = tlc.dump_graph(wd, 'MC_Commands.tla', ucfg, timeout=3000)
+            ctx.add_tlc('E1 generation ' + ucfg, res, ucfg)
+            items = _items([[g.state(n) for n in p] for p in g.behaviours()], 3)
+            ctx.check_ops(ucfg, items, ['Do', 'Undo', 'Redo'])
+            _replay(ctx, items, 'graph ' + ucfg)
+            del g
         n, depth = (400, 30) if quick else (8000, 50)
         res, behs = tlc.simulate(wd, 'MC_Commands.tla', 'SIM_Commands.cfg', num=n, depth=depth, seed=ctx.seed + 1,
                                  timeout=3000)
@@ -83,11 +83,11 @@ def run(ctx):
     ctx.assume('private reads: CommandStack._command_stack/_undo_stack lengths; glue.core.command.MAX_UNDO is set to the model bound')
 
 
-def replay(div):
+def replay(div, prop='C13'):
     res = A.replay_one(div.behaviour)
     if res is None:
         print('replay: behaviour conforms')
         return 0
-    print('VIOLATION property=C13 replay=(given)')
+    print('VIOLATION property=%s replay=(given)' % prop)
     print('  step %s %s: expected %s got %s %s' % res)
     return 1
